@@ -43,6 +43,20 @@ Lifecycle(calls, outcome) ==
     IF calls = <<>> THEN outcome = "err"
     ELSE (outcome = "ok" /\ Final(calls) = "okend") \/ (outcome = "err" /\ Final(calls) = "errend")
 
+\* The snapshots handed to the opcode-level callbacks of a step name the instruction that step
+\* executes: cpos[i] is the (script, opcode) position of the snapshot given to callback i, and the
+\* positions seen by BeforeExecuteOpcode / AfterExecuteOpcode equal the one seen by the BeforeStep
+\* that opened the step (the program counter advances only after AfterExecuteOpcode).
+\* Returns 0 when consistent, else the index of the first offending callback.
+OpPositions(calls, cpos) ==
+    FoldLeft(LAMBDA acc, i :
+                IF acc.bad # 0 THEN acc
+                ELSE IF calls[i] = "BeforeStep" THEN [acc EXCEPT !.cur = cpos[i]]
+                ELSE IF calls[i] \in {"BeforeExecuteOpcode", "AfterExecuteOpcode"} /\ cpos[i] # acc.cur
+                     THEN [acc EXCEPT !.bad = i]
+                ELSE acc,
+             [cur |-> -2, bad |-> 0], [i \in 1..Len(calls) |-> i]).bad
+
 \* a success ran every step to completion: AfterStep count = BeforeStep count
 Count(calls, c) == Cardinality({i \in 1..Len(calls) : calls[i] = c})
 =================================================================================
